@@ -191,3 +191,33 @@ impl McSystem {
         hasher.finish()
     }
 }
+
+#[cfg(anysystem_verif)]
+impl McSystem {
+    /// Verification hook: `get_state`.
+    pub fn verif_get_state(&self) -> McState {
+        self.get_state()
+    }
+
+    /// Verification hook: `set_state`.
+    pub fn verif_set_state(&mut self, state: McState) {
+        self.set_state(state)
+    }
+
+    /// Verification hook: `available_events`.
+    pub fn verif_available_events(&self) -> BTreeSet<McEventId> {
+        self.available_events()
+    }
+
+    /// Verification hook: true iff the ordering mode is `MessagesFirst`.
+    pub fn verif_messages_first(&self) -> bool {
+        matches!(self.event_ordering_mode, EventOrderingMode::MessagesFirst)
+    }
+
+    /// Verification hook: takes the event with the given id out of the store and applies it
+    /// (the effect of a plain delivery / timer firing step without restoring the state).
+    pub fn verif_apply_id(&mut self, id: McEventId) {
+        let event = self.events.pop(id);
+        self.apply_event(event);
+    }
+}
